@@ -625,7 +625,7 @@ pub fn run(ctx: &mut RunCtx) {
     ctx.assume("documented categories: rejected before execution -> syntax, failed while executing -> execution, commit/I-O -> storage; a message that names its class keeps it");
     ctx.assume("a statement is a write iff the generator put an update clause anywhere in it (top level, CALL {} subquery, FOREACH, UNION branch)");
     let x_nonfinite = ctx.has_open("value-differs:non-finite-float");
-    let cases = ctx.tier.pick(12_000, 1_200_000);
+    let cases = ctx.tier.pick(72_000, 1_200_000);
     let test = move |c: &Case, obs: &mut Obs| -> CaseResult {
         let dir = temp_dir();
         let rdb = open_db(&dir.join("rust"))?;
